@@ -378,6 +378,31 @@ fn check_template(ctx: &Ctx, rep: &mut Report, n: u64, d: Dialect, tpl: &str, la
                     }
                 }
             }
+            // inject_parameters on the template text itself (hand-written SQL with placeholders, a numbered one
+            // possibly more than once): every placeholder outside quotes is replaced by its value's literal,
+            // everything else stays. (inject_parameters has no doubled-mark escape: templates with one are left out.)
+            // (the pinned probe of the listed bracket-subscript finding is reported once, by the rule it is listed under)
+            if all_plain && !kinds.iter().any(|k| k.contains("doubled") || *k == "bracket-subscript-placeholder") {
+                let mut want = String::new();
+                for s in &segs {
+                    match s {
+                        Seg::Text(t) => want.push_str(t),
+                        Seg::Slot(i) => want.push_str(&qb(d).value_to_string(&plain[*i])),
+                    }
+                }
+                rep.count("direct_inject_checked", 1);
+                let got = guard(|| inject_parameters(tpl, plain.clone(), qb(d)));
+                if got.as_deref() != Ok(want.as_str()) {
+                    rep.violation(
+                        "R.inject",
+                        d.name(),
+                        format!("template text [{sig_kinds}]"),
+                        json!({"sql": tpl, "values": format!("{plain:?}"), "expected": want, "got": format!("{got:?}")}),
+                        ctx.shard,
+                        n,
+                    );
+                }
+            }
             for k in &kinds {
                 rep.note("piece_kinds", format!("{}:{k}", d.name()));
             }
@@ -477,7 +502,14 @@ pub fn check(ctx: &Ctx, rep: &mut Report) {
             let mut nph = 0;
             let mut labels = vec![];
             for k in &ks {
-                if *k == NPIECES && rng.chance(1, 3) {
+                if *k == NPIECES && rng.chance(1, 6) {
+                    // a character from outside ASCII's classes (Unicode white space, numerics, a byte-order mark),
+                    // standing alone between blanks: ordinary text that is passed through
+                    t.push(' ');
+                    t.push(*rng.pick(&['\u{a0}', '\u{c}', '\u{b}', '\u{2003}', '\u{feff}', '²', '½', '\u{663}', '\u{200b}']));
+                    t.push(' ');
+                    labels.push("exotic-character");
+                } else if *k == NPIECES && rng.chance(1, 3) {
                     // a mark's number running straight into a word, or two numbered marks glued together: not
                     // placeholders on Postgres (`$1st` is not `$1` followed by `st`), ordinary text elsewhere
                     if t.ends_with(|c: char| c.is_alphanumeric() || c == '_' || c == '$' || c == '?') {
